@@ -112,6 +112,12 @@ func checkEnvelope(kind string, v interface{}) (fails [][2]string, enc []byte, f
 		if b2, err2, _ := codec.Marshal(td.Env); err2 == nil && string(b2) == string(b) {
 			fixedPoint = true
 		}
+		// (i') the same bytes decoded into a variable that held another envelope before
+		if tr := codec.DecodeTypedReused(kind, b); tr.Panic != "" || tr.Err != nil {
+			fail("typed-decode-reused-variable:"+kind, fmt.Sprintf("typed decoder fails on a variable that held an earlier envelope: %v %s", tr.Err, tr.Panic))
+		} else if d := codec.Diff(want, codec.Canon(tr.Env)); d != "" {
+			fail("typed-roundtrip-reused-variable:"+d, fmt.Sprintf("decoded into a variable that held an earlier envelope, the result differs from the original at %s", d))
+		}
 	}
 	// (ii) real TCP transport receive path
 	rc := codec.Receive(append(append([]byte{}, b...), '\n'), 2)
@@ -374,6 +380,14 @@ func main() {
 		for _, b := range mtw {
 			for _, c := range mto {
 				text("mediatype", a, b, c)
+			}
+		}
+	}
+	for _, a := range []string{"A", "aB", "Ab.C"} { // letter case is part of a media type's text
+		for _, b := range []string{"a", "B", "vnd.Acme"} {
+			for _, c := range []string{"", "json", "JSON"} {
+				text("mediatype", a, b, c)
+				text("mediatype", b, a, c)
 			}
 		}
 	}
